@@ -419,6 +419,11 @@ def run(prog, check):
         b15 = Borrowed(check, lambda rule, key: rule == 'C15.R2' and '::self-write(' in key, 'C02.R3',
                        'an exogenous path with a step at the last period, solved with the initial steady-state option on')
         b15.run_lender(_c15, prog)
+    # what is reported is what was solved: reading the results does not shift or shorten them (alias analysis shared with C16.R2)
+    from .C16 import discover_accessors as _disc2, check_accessor as _chk2, Summaries as _Summ2
+    summ2_ = _Summ2(prog)
+    for f_acc in _disc2(prog)['series']:
+        _chk2(prog, check, f_acc, 'series', summ2_, pid_rules=(None, 'C02.R3'))
     check.floor('C02.R6', 2)
     check.floor('C02.R1', 2)
     check.floor('C02.R2', 4)
